@@ -104,7 +104,11 @@ func c09Replay(args []string) *Result {
 			whole = renderTokens(cs.Doc[:len(cs.Doc)-1], false, canon)
 		}
 		distinct[shapeKey(&c07Case{Content: cs.Content})] = struct{}{}
-		replay := map[string]any{"kind": "c09", "case": cs, "whole": whole.text}
+		files := map[string]string{}
+		for n, rd := range p.files {
+			files[n] = rd.text
+		}
+		replay := map[string]any{"kind": "c09", "case": cs, "whole": whole.text, "files": files}
 		a := buildText(whole.text)
 		b := buildProject(filepath.Join(p.dir, "root.jst"))
 		res.count("whole-" + a.Res)
